@@ -1,6 +1,188 @@
-(** First facts about Model/Paths.v (placeholder, extended below). *)
-From DL Require Import Lib.Bytes Model.Paths Model.Require.
+(** Basic facts about Model/Paths.v: equality tests, accessors on [q ++ [c]],
+    [from_iter]/[extend]/[join] on well-shaped lists, and the behaviour of [normalize]
+    on the shapes that occur in require resolution (names, leading "..", a leading "."). *)
+From DL Require Import Lib.Bytes Model.Paths.
+Require Import Lia PeanoNat.
 Open Scope N_scope.
 
-Lemma candidates_head p mfn : exists r, candidates p mfn = p :: r.
-Proof. unfold candidates. eexists. reflexivity. Qed.
+(** * equality tests *)
+
+Lemma bytes_eqb_refl a : bytes_eqb a a = true.
+Proof. apply bytes_eqb_eq. reflexivity. Qed.
+
+Lemma comp_eqb_eq a b : comp_eqb a b = true <-> a = b.
+Proof.
+  destruct a, b; cbn [comp_eqb]; split; intros H; try reflexivity; try discriminate.
+  - apply bytes_eqb_eq in H. congruence.
+  - inversion H; subst. apply bytes_eqb_refl.
+Qed.
+
+Lemma comp_eqb_refl a : comp_eqb a a = true.
+Proof. apply comp_eqb_eq. reflexivity. Qed.
+
+Lemma path_eqb_eq a b : path_eqb a b = true <-> a = b.
+Proof.
+  revert b; induction a as [|x a IH]; intros [|y b]; cbn [path_eqb]; split; intros H;
+    try reflexivity; try discriminate.
+  - apply andb_true_iff in H as [H1 H2]. apply comp_eqb_eq in H1. apply IH in H2. congruence.
+  - inversion H; subst. rewrite comp_eqb_refl. apply IH. reflexivity.
+Qed.
+
+Lemma path_eqb_refl a : path_eqb a a = true.
+Proof. apply path_eqb_eq. reflexivity. Qed.
+
+(** * shapes *)
+
+Definition is_norm (c : comp) : bool := match c with Norm _ => true | _ => false end.
+(** only names: a path below the working directory, already normalised *)
+Definition simple (p : path) : bool := forallb is_norm p.
+(** no "/" and no "." component *)
+Definition plain_comp (c : comp) : bool := match c with Root | Cur => false | _ => true end.
+Definition plain (p : path) : bool := forallb plain_comp p.
+
+Lemma simple_plain p : simple p = true -> plain p = true.
+Proof.
+  unfold simple, plain. induction p as [|c p IH]; cbn [forallb]; intros H; [reflexivity|].
+  apply andb_true_iff in H as [H1 H2]. rewrite IH by assumption. destruct c; try discriminate; reflexivity.
+Qed.
+
+Lemma simple_app a b : simple (a ++ b) = simple a && simple b.
+Proof. unfold simple. apply forallb_app. Qed.
+
+Lemma plain_app a b : plain (a ++ b) = plain a && plain b.
+Proof. unfold plain. apply forallb_app. Qed.
+
+Lemma plain_repeat_par k : plain (repeat Par k) = true.
+Proof. induction k; cbn; auto. Qed.
+
+Lemma simple_no_root p : simple p = true -> has_root p = false.
+Proof. destruct p as [|[] p]; cbn; intros; try reflexivity; discriminate. Qed.
+
+(** * accessors on [q ++ [c]] *)
+
+Lemma last_comp_snoc q c : last_comp (q ++ [c]) = Some c.
+Proof. unfold last_comp. rewrite rev_app_distr. reflexivity. Qed.
+
+Lemma file_name_snoc q n : file_name (q ++ [Norm n]) = Some n.
+Proof. unfold file_name. rewrite last_comp_snoc. reflexivity. Qed.
+
+Lemma file_name_snoc_par q : file_name (q ++ [Par]) = None.
+Proof. unfold file_name. rewrite last_comp_snoc. reflexivity. Qed.
+
+Lemma parent_snoc q c : c <> Root -> parent (q ++ [c]) = Some q.
+Proof.
+  intros H. unfold parent. rewrite rev_app_distr. cbn [rev app].
+  destruct c; try congruence; rewrite rev_involutive; reflexivity.
+Qed.
+
+Lemma pop_snoc q c : c <> Root -> pop (q ++ [c]) = q.
+Proof. intros H. unfold pop. rewrite parent_snoc by assumption. reflexivity. Qed.
+
+Lemma extension_snoc q n : extension (q ++ [Norm n]) = name_ext n.
+Proof. unfold extension. rewrite file_name_snoc. reflexivity. Qed.
+
+Lemma file_stem_snoc q n : file_stem (q ++ [Norm n]) = name_stem n.
+Proof. unfold file_stem. rewrite file_name_snoc. reflexivity. Qed.
+
+Lemma removelast_snoc {A} (q : list A) c : removelast (q ++ [c]) = q.
+Proof. apply removelast_last. Qed.
+
+Lemma set_extension_snoc q n e stem :
+  name_stem n = Some stem ->
+  set_extension (q ++ [Norm n]) e = q ++ [Norm (stem ++ match e with [] => [] | _ => dot :: e end)].
+Proof.
+  intros H. unfold set_extension. rewrite file_name_snoc, H, removelast_snoc. reflexivity.
+Qed.
+
+(** a prefix does not change what the accessors see of a non-empty path *)
+Lemma file_name_app x y c : file_name (x ++ y ++ [c]) = file_name (y ++ [c]).
+Proof. unfold file_name. rewrite app_assoc, !last_comp_snoc. reflexivity. Qed.
+
+(** * [extend], [from_iter], [join] *)
+
+Lemma extend_plain p l : plain l = true -> extend p l = p ++ l.
+Proof.
+  unfold extend. revert p. induction l as [|c l IH]; intros p H; cbn [fold_left].
+  - rewrite app_nil_r. reflexivity.
+  - cbn [plain forallb] in H. apply andb_true_iff in H as [Hc Hl].
+    rewrite IH by assumption. destruct c; try discriminate; cbn [push_comp]; rewrite <- app_assoc; reflexivity.
+Qed.
+
+Lemma from_iter_plain l : plain l = true -> from_iter l = l.
+Proof. intros H. unfold from_iter. rewrite extend_plain by assumption. reflexivity. Qed.
+
+Lemma from_iter_cur_plain l : plain l = true -> from_iter (Cur :: l) = Cur :: l.
+Proof. intros H. unfold from_iter, extend. cbn [fold_left push_comp]. apply (extend_plain [Cur] l H). Qed.
+
+Lemma from_iter_norm_plain n l : plain l = true -> from_iter (Norm n :: l) = Norm n :: l.
+Proof. intros H. unfold from_iter, extend. cbn [fold_left push_comp app]. apply (extend_plain [Norm n] l H). Qed.
+
+Lemma join_plain a b : plain b = true -> join a b = a ++ b.
+Proof.
+  intros H. unfold join. destruct b as [|c b]; [destruct a; reflexivity|].
+  cbn [plain forallb] in H. apply andb_true_iff in H as [Hc _].
+  destruct c; try discriminate; cbn [has_root]; destruct a; reflexivity.
+Qed.
+
+Lemma join_cur_nonempty a b : a <> [] -> join a (Cur :: b) = a ++ b.
+Proof. intros H. unfold join. cbn [has_root]. destruct a; [congruence|reflexivity]. Qed.
+
+Lemma join_nil_l b : join [] b = b.
+Proof. unfold join. destruct (has_root b); [reflexivity|]. destruct b; reflexivity. Qed.
+
+(** * [normalize] *)
+
+Definition nfold (k : bool) (l : list comp) (racc : list comp) : list comp :=
+  fold_left (normalize_step k) l racc.
+
+Lemma nfold_app k a b racc : nfold k (a ++ b) racc = nfold k b (nfold k a racc).
+Proof. unfold nfold. apply fold_left_app. Qed.
+
+Lemma nfold_simple k s racc : simple s = true -> nfold k s racc = rev s ++ racc.
+Proof.
+  unfold nfold. revert racc. induction s as [|c s IH]; intros racc H; cbn [fold_left rev]; [reflexivity|].
+  cbn [simple forallb] in H. apply andb_true_iff in H as [Hc Hs].
+  destruct c; try discriminate. cbn [normalize_step]. rewrite IH by assumption.
+  rewrite <- app_assoc. reflexivity.
+Qed.
+
+(** each ".." removes one name *)
+Lemma nfold_pars_pop k s r : simple s = true -> nfold k (repeat Par (List.length s)) (s ++ r) = r.
+Proof.
+  unfold nfold. induction s as [|c s IH]; intros H; cbn [List.length repeat fold_left app]; [reflexivity|].
+  cbn [simple forallb] in H. apply andb_true_iff in H as [Hc Hs].
+  destruct c; try discriminate. cbn [normalize_step]. apply IH. assumption.
+Qed.
+
+(** ".." on top of ".."s (or of nothing) accumulate *)
+Lemma nfold_pars_acc k j i : nfold k (repeat Par j) (repeat Par i) = repeat Par (j + i).
+Proof.
+  unfold nfold. revert i. induction j as [|j IH]; intros i; cbn [repeat fold_left Nat.add]; [reflexivity|].
+  replace (normalize_step k (repeat Par i) Par) with (repeat Par (S i)).
+  - rewrite IH. rewrite Nat.add_succ_r. reflexivity.
+  - destruct i; reflexivity.
+Qed.
+
+Lemma rev_repeat {A} (x : A) n : rev (repeat x n) = repeat x n.
+Proof.
+  induction n; cbn [repeat rev]; [reflexivity|]. rewrite IHn.
+  clear IHn. induction n; cbn [repeat app]; [reflexivity|]. f_equal. exact IHn.
+Qed.
+
+Lemma forallb_rev' {A} (f : A -> bool) l : forallb f (rev l) = forallb f l.
+Proof.
+  induction l as [|x l IH]; cbn [rev forallb]; [reflexivity|].
+  rewrite forallb_app, IH. cbn [forallb]. rewrite andb_true_r. apply andb_comm.
+Qed.
+
+(** the final steps of [normalize] on a non-empty plain result *)
+Lemma normalize_finish k p racc :
+  p <> [] -> nfold k p [] = racc -> racc <> [] -> plain racc = true -> normalize k p = rev racc.
+Proof.
+  intros Hp Hf Hr Hpl. unfold normalize. destruct p; [congruence|].
+  fold (nfold k (c :: p) []). rewrite Hf.
+  destruct (rev racc) eqn:E.
+  - apply (f_equal (@rev comp)) in E. rewrite rev_involutive in E. cbn in E. congruence.
+  - rewrite <- E. apply from_iter_plain. unfold plain. rewrite forallb_rev'. exact Hpl.
+Qed.
+
